@@ -31,6 +31,24 @@ async def main():
             out["init"].append(("ok", wire(resp)))
         except BaseException as e:  # noqa
             out["init"].append(("err", repr(e)[:200]))
+    # a server configured through the typed attributes (as application code does), every declared capability switched on
+    try:
+        import inspect
+        import typing
+        kwargs = {}
+        for fname, ann in typing.get_type_hints(ServerCapabilities).items():
+            if fname.startswith("_") or fname == "model_config":
+                continue
+            for a in (typing.get_args(ann) or (ann,)):
+                if inspect.isclass(a) and issubclass(a, B.McpPydanticBase):
+                    kwargs[fname] = a()
+        h = ProtocolHandler(ServerInfo(name="typed", version="1"), ServerCapabilities(**kwargs))
+        resp, _sid = await h.handle_message(parse_message({
+            "jsonrpc": "2.0", "id": 9, "method": "initialize",
+            "params": {"protocolVersion": "2025-06-18", "clientInfo": {"name": "c", "version": "1"}, "capabilities": {}}}))
+        out["init_typed"] = ("ok", sorted(kwargs), wire(resp), resp.model_dump_json(exclude_none=True))
+    except BaseException as e:  # noqa
+        out["init_typed"] = ("err", repr(e)[:200])
     for tools in data["tools"]:
         try:
             srv = MCPServer("s", "1")
